@@ -217,6 +217,7 @@ func c09NewSchema(cols []c09Col) *c09Schema {
 	// payload columns sort after the key columns by name
 	g["p_in"] = parquet.Int(64)
 	g["p_seq"] = parquet.Int(64)
+	g["p_tag"] = parquet.String() // a byte array payload: "<input>:<seq>:<key>"
 	s.schema = parquet.NewSchema("c09", g)
 	s.compare = s.schema.Comparator(s.sorting...)
 	return s
@@ -224,7 +225,7 @@ func c09NewSchema(cols []c09Col) *c09Schema {
 
 func (s *c09Schema) row(key c09Key, in, seq int) parquet.Row {
 	n := len(s.cols)
-	row := make(parquet.Row, 0, n+2)
+	row := make(parquet.Row, 0, n+3)
 	for j, col := range s.cols {
 		switch {
 		case col.Optional && key[j] == nil:
@@ -235,7 +236,8 @@ func (s *c09Schema) row(key c09Key, in, seq int) parquet.Row {
 			row = append(row, parquet.Int64Value(*key[j]).Level(0, 0, j))
 		}
 	}
-	row = append(row, parquet.Int64Value(int64(in)).Level(0, 0, n), parquet.Int64Value(int64(seq)).Level(0, 0, n+1))
+	row = append(row, parquet.Int64Value(int64(in)).Level(0, 0, n), parquet.Int64Value(int64(seq)).Level(0, 0, n+1),
+		parquet.ByteArrayValue([]byte(c09Tag(in, seq, key))).Level(0, 0, n+2))
 	return row
 }
 
@@ -247,6 +249,8 @@ func (s *c09Schema) rows(in int, keys []c09Key) []parquet.Row {
 	return rows
 }
 
+func c09Tag(in, seq int, key c09Key) string { return fmt.Sprintf("%d:%d:%s", in, seq, c09KeyTok(key)) }
+
 // an output row decoded: identity and key as found in the row
 type c09Out struct {
 	In, Seq int
@@ -257,14 +261,15 @@ type c09Out struct {
 func (s *c09Schema) decode(row parquet.Row) c09Out {
 	n := len(s.cols)
 	o := c09Out{In: -1, Seq: -1, Key: make(c09Key, n)}
-	if len(row) != n+2 {
-		o.Bad = fmt.Sprintf("row has %d values, want %d: %v", len(row), n+2, row)
+	if len(row) != n+3 {
+		o.Bad = fmt.Sprintf("row has %d values, want %d: %v", len(row), n+3, row)
 		return o
 	}
-	seen := make([]bool, n+2)
+	seen := make([]bool, n+3)
+	tag := ""
 	for _, v := range row {
 		ci := v.Column()
-		if ci < 0 || ci >= n+2 || seen[ci] {
+		if ci < 0 || ci >= n+3 || seen[ci] {
 			o.Bad = fmt.Sprintf("row with unexpected column index %d: %v", ci, row)
 			return o
 		}
@@ -277,9 +282,14 @@ func (s *c09Schema) decode(row parquet.Row) c09Out {
 			}
 		case ci == n:
 			o.In = int(v.Int64())
-		default:
+		case ci == n+1:
 			o.Seq = int(v.Int64())
+		default:
+			tag = string(v.ByteArray())
 		}
+	}
+	if want := c09Tag(o.In, o.Seq, o.Key); tag != want {
+		o.Bad = fmt.Sprintf("the payload of the row is %q, the row written was %q", tag, want)
 	}
 	return o
 }
@@ -802,7 +812,40 @@ func c09CheckGroups(c *core.Ctx, cs *c09Case, info *c09GroupsInfo) bool {
 		c.Violation("written-"+class, what+", rows of the file written with WriteRowGroup: "+w, cs)
 		return false
 	}
+	// the unrefined plan over in-memory buffers (one page per column, sources
+	// that fill the slices they are given), read with one slice length, is
+	// modelled exactly: segments, 2-way / k-way dispatch and tie-breaks
+	if c09PlanModelled(cs) {
+		req := fmt.Sprintf("c09.plan 0 %s 0 %x %s %s", c09CfgTok(cs.Cols), cs.Batches[0], b01(cs.Dedupe), c09InputsTok(cs.Inputs))
+		want := c.Ask(req)
+		items := make([]string, len(read))
+		for i, o := range read {
+			items[i] = fmt.Sprintf("%d.%d", o.In, o.Seq)
+		}
+		got := "_"
+		if len(items) > 0 {
+			got = strings.Join(items, ",")
+		}
+		if want != got {
+			c.Mismatch("corr:C09.plan", req, got, want, cs)
+			return false
+		}
+	}
 	return true
+}
+
+func c09PlanModelled(cs *c09Case) bool {
+	if len(cs.Batches) != 1 || len(cs.Inputs) == 0 || len(cs.Inputs) > 12 {
+		return false
+	}
+	total := 0
+	for i, in := range cs.Inputs {
+		if cs.backingOf(i) != "buffer" {
+			return false
+		}
+		total += len(in)
+	}
+	return total < 1000
 }
 
 // ---- dispatch, shrinking ---------------------------------------------------
@@ -1241,7 +1284,7 @@ func runC09(c *core.Ctx) {
 	}
 
 	// ---- random readers
-	nReaders := c.N(1500, 30000)
+	nReaders := c.N(5000, 100000)
 	for i := 0; i < nReaders; i++ {
 		k := 2
 		switch r := c.Rng.Intn(10); {
@@ -1263,7 +1306,7 @@ func runC09(c *core.Ctx) {
 	}
 
 	// ---- dedupe reader
-	nDedupe := c.N(300, 6000)
+	nDedupe := c.N(1000, 20000)
 	for i := 0; i < nDedupe; i++ {
 		cols := c09ColConfigs[c.Rng.Intn(len(c09ColConfigs))]
 		pattern := []string{"dense", "runs", "identical", "random"}[c.Rng.Intn(4)]
@@ -1273,7 +1316,7 @@ func runC09(c *core.Ctx) {
 	}
 
 	// ---- row groups: small inputs
-	nGroups := c.N(500, 8000)
+	nGroups := c.N(1500, 30000)
 	fired := 0
 	for i := 0; i < nGroups; i++ {
 		k := c.Rng.Intn(10)
@@ -1282,6 +1325,9 @@ func runC09(c *core.Ctx) {
 		lens := c09Lens[:len(c09Lens)-4]
 		cs := &c09Case{Kind: "groups", Cols: cols, Inputs: c09GenInputs(c, cols, k, pattern, lens), Batches: c09GenBatches(c),
 			PageBuf: []int{0, 64, 128, 300, 1024}[c.Rng.Intn(5)], Dedupe: c.Rng.Intn(3) == 0, NoRefine: c.Rng.Intn(4) == 0, Note: pattern}
+		if c.Rng.Intn(2) == 0 {
+			cs.Batches = cs.Batches[:1]
+		}
 		mode := c.Rng.Intn(3)
 		for j := 0; j < k; j++ {
 			b := "buffer"
@@ -1301,7 +1347,7 @@ func runC09(c *core.Ctx) {
 	}
 
 	// ---- row groups: large file-backed inputs with small pages (refinement path), refined and unrefined plans
-	nBig := c.N(24, 300)
+	nBig := c.N(40, 700)
 	for i := 0; i < nBig; i++ {
 		k := 2 + c.Rng.Intn(3)
 		cols := [][]c09Col{{{}}, {{}}, {{Desc: true}}, {{}, {}}, {{Optional: true}}}[c.Rng.Intn(5)]
